@@ -28,12 +28,13 @@ VARIABLES
   builtFrom,  \* [T -> version vector the last completed script saw, <<-1>> if none]
   sees,       \* [T -> version vector the running script saw]
   signalled, rootErr, waited,
-  begunOK     \* [T -> BOOLEAN] the dependencies were ready when the current run of t was decided
+  begunOK,    \* [T -> BOOLEAN] the dependencies were ready when the current run of t was decided
+  lastFin     \* [T -> outcome of the last script: "none", "ok", "fail", "cancelled"]
 
 mon == <<g, word, ready, failed, nStart, nSkip, inst, shells, lastRes, ver, gen, builtFrom, sees,
-         signalled, rootErr, waited, begunOK>>
+         signalled, rootErr, waited, begunOK, lastFin>>
 vars == <<l, g, word, ready, failed, nStart, nSkip, inst, shells, lastRes, ver, gen, builtFrom, sees,
-          signalled, rootErr, waited, begunOK>>
+          signalled, rootErr, waited, begunOK, lastFin>>
 
 T == 1..g.n
 EK == {"b", "s"}
@@ -113,7 +114,7 @@ InitMon(c) ==
                                     THEN <<0>> \o [i \in 1..Len(c.inh[t]) |-> 0] ELSE <<-1>>]
   /\ sees = [t \in 1..c.n |-> <<-1>>]
   /\ signalled = FALSE /\ rootErr = 0 /\ waited = FALSE
-  /\ begunOK = [t \in 1..c.n |-> TRUE]
+  /\ begunOK = [t \in 1..c.n |-> TRUE] /\ lastFin = [t \in 1..c.n |-> "none"]
 
 Init == l = 1 /\ TLCSet(1, 0) /\ InitMon(Rec[1].cfg) /\ Rec[1].e = "cfg"
 
@@ -133,14 +134,14 @@ Step(e) ==
                              THEN <<0>> \o [i \in 1..Len(e.cfg.inh[t]) |-> 0] ELSE <<-1>>]
          /\ sees' = [t \in 1..e.cfg.n |-> <<-1>>]
          /\ signalled' = FALSE /\ rootErr' = 0 /\ waited' = FALSE
-         /\ begunOK' = [t \in 1..e.cfg.n |-> TRUE]
+         /\ begunOK' = [t \in 1..e.cfg.n |-> TRUE] /\ lastFin' = [t \in 1..e.cfg.n |-> "none"]
     [] e.e = "recv" ->
          /\ word' = IF e.ty \in {"ok", "inv"} THEN [word EXCEPT ![e.t][e.from][e.k] = e.ty] ELSE word
-         /\ Keep(<<g, ready, failed, nStart, nSkip, inst, shells, lastRes, ver, gen, builtFrom, sees, signalled, rootErr, waited, begunOK>>)
+         /\ Keep(<<g, ready, failed, nStart, nSkip, inst, shells, lastRes, ver, gen, builtFrom, sees, signalled, rootErr, waited, begunOK, lastFin>>)
     [] e.e = "begin" ->     \* the actor decided to run t (loop-top test passed)
          /\ CheckAll(StartProps(e.t), <<"start-before-deps-ready", e.t>>, StartOK(e.t))
          /\ begunOK' = [begunOK EXCEPT ![e.t] = StartOK(e.t)]
-         /\ Keep(<<g, word, ready, failed, nStart, nSkip, inst, shells, lastRes, ver, gen, builtFrom, sees, signalled, rootErr, waited>>)
+         /\ Keep(<<g, word, ready, failed, nStart, nSkip, inst, shells, lastRes, ver, gen, builtFrom, sees, signalled, rootErr, waited, lastFin>>)
     [] e.e = "start" ->
          \* F10: a dependency's out-of-date notice arriving between the decision and the spawn is a known finding
          /\ CheckAll(StartProps(e.t), <<IF begunOK[e.t] THEN "invalidated-between-decision-and-spawn" ELSE "start-before-deps-ready", e.t>>, StartOK(e.t))
@@ -150,23 +151,29 @@ Step(e) ==
          /\ shells' = [shells EXCEPT ![e.t] = @ + 1]
          /\ sees' = [sees EXCEPT ![e.t] = EffIn(e.t)]
          /\ lastRes' = [lastRes EXCEPT ![e.t] = "started"]
+         /\ lastFin' = [lastFin EXCEPT ![e.t] = "none"]
          /\ Keep(<<g, word, ready, failed, nSkip, inst, ver, gen, builtFrom, signalled, rootErr, waited, begunOK>>)
     [] e.e = "skip" ->
          /\ Check("C08", <<"executed-twice-or-outside-closure", e.t>>, OnceOK(e.t))
          /\ Check(IF g.watch THEN "C06" ELSE "C02", <<"stale-skip", e.t>>, builtFrom[e.t] = EffIn(e.t))
          /\ nSkip' = [nSkip EXCEPT ![e.t] = @ + 1]
-         /\ Keep(<<g, word, ready, failed, nStart, inst, shells, lastRes, ver, gen, builtFrom, sees, signalled, rootErr, waited, begunOK>>)
+         /\ Keep(<<g, word, ready, failed, nStart, inst, shells, lastRes, ver, gen, builtFrom, sees, signalled, rootErr, waited, begunOK, lastFin>>)
     [] e.e = "finish" ->    \* the script ended: ok / fail / cancelled (shell reaped)
          /\ shells' = [shells EXCEPT ![e.t] = IF @ > 0 THEN @ - 1 ELSE 0]
          /\ gen' = IF e.outcome = "ok" THEN [gen EXCEPT ![e.t] = @ + 1] ELSE gen
          /\ builtFrom' = IF e.outcome = "ok" THEN [builtFrom EXCEPT ![e.t] = sees[e.t]] ELSE builtFrom
+         /\ lastFin' = [lastFin EXCEPT ![e.t] = e.outcome]
          /\ Keep(<<g, word, ready, failed, nStart, nSkip, inst, lastRes, ver, sees, signalled, rootErr, waited, begunOK>>)
     [] e.e = "result" ->    \* the actor learnt the outcome of its build
+         /\ CheckAll({"C07", "C05"}, <<"script-failure-not-reported-as-failure", e.t, e.res>>,
+                     (e.res # "skipped" /\ lastFin[e.t] = "fail") => e.res = "failed")
+         /\ Check("C05", <<"cancelled-or-failed-script-reported-as-completed", e.t>>,
+                  e.res = "completed" => lastFin[e.t] = "ok")
          /\ lastRes' = [lastRes EXCEPT ![e.t] = e.res]
          /\ ready' = IF e.res \in {"completed", "skipped"} THEN [ready EXCEPT ![e.t] = TRUE] ELSE ready
          /\ failed' = IF e.res = "failed" THEN [failed EXCEPT ![e.t] = TRUE]
                       ELSE IF e.res \in {"completed", "skipped"} THEN [failed EXCEPT ![e.t] = FALSE] ELSE failed
-         /\ Keep(<<g, word, nStart, nSkip, inst, shells, ver, gen, builtFrom, sees, signalled, rootErr, waited, begunOK>>)
+         /\ Keep(<<g, word, nStart, nSkip, inst, shells, ver, gen, builtFrom, sees, signalled, rootErr, waited, begunOK, lastFin>>)
     [] e.e = "svcstart" ->
          /\ CheckAll(StartProps(e.t), <<"service-start-before-deps-ready", e.t>>, StartOK(e.t))
          /\ Check("C08", <<"service-outside-closure-or-twice", e.t>>, e.t \in Closure /\ (~g.watch => nStart[e.t] = 0))
@@ -175,14 +182,14 @@ Step(e) ==
          /\ nStart' = [nStart EXCEPT ![e.t] = @ + 1]
          /\ ready' = [ready EXCEPT ![e.t] = TRUE]
          /\ failed' = [failed EXCEPT ![e.t] = FALSE]
-         /\ Keep(<<g, word, nSkip, shells, lastRes, ver, gen, builtFrom, sees, signalled, rootErr, waited, begunOK>>)
+         /\ Keep(<<g, word, nSkip, shells, lastRes, ver, gen, builtFrom, sees, signalled, rootErr, waited, begunOK, lastFin>>)
     [] e.e = "svcstop" ->
          /\ inst' = [inst EXCEPT ![e.t] = @ \ {e.pid}]
-         /\ Keep(<<g, word, ready, failed, nStart, nSkip, shells, lastRes, ver, gen, builtFrom, sees, signalled, rootErr, waited, begunOK>>)
+         /\ Keep(<<g, word, ready, failed, nStart, nSkip, shells, lastRes, ver, gen, builtFrom, sees, signalled, rootErr, waited, begunOK, lastFin>>)
     [] e.e = "svcfail" ->
          /\ Check("C01", <<"service-start-before-deps-ready", e.t>>, StartOK(e.t))
          /\ failed' = [failed EXCEPT ![e.t] = TRUE]
-         /\ Keep(<<g, word, ready, nStart, nSkip, inst, shells, lastRes, ver, gen, builtFrom, sees, signalled, rootErr, waited, begunOK>>)
+         /\ Keep(<<g, word, ready, nStart, nSkip, inst, shells, lastRes, ver, gen, builtFrom, sees, signalled, rootErr, waited, begunOK, lastFin>>)
     [] e.e = "send" ->
          /\ CheckAll({"C01", "C20"} \cup (IF e.k = "s" THEN {"C11"} ELSE {}), <<"aggregate-forwards-early", e.t, e.k>>,
                   (g.kind[e.t] = "a" /\ e.ty = "ok") => AggOK(e.t, e.k))
@@ -197,20 +204,30 @@ Step(e) ==
     [] e.e = "rooterr" ->
          /\ Check("C07", <<"error-names-target-that-did-not-fail", e.t>>, failed[e.t])
          /\ rootErr' = e.t
-         /\ Keep(<<g, word, ready, failed, nStart, nSkip, inst, shells, lastRes, ver, gen, builtFrom, sees, signalled, waited, begunOK>>)
+         /\ Keep(<<g, word, ready, failed, nStart, nSkip, inst, shells, lastRes, ver, gen, builtFrom, sees, signalled, waited, begunOK, lastFin>>)
     [] e.e = "edit" ->
          /\ ver' = [ver EXCEPT ![e.t] = e.ver]
-         /\ Keep(<<g, word, ready, failed, nStart, nSkip, inst, shells, lastRes, gen, builtFrom, sees, signalled, rootErr, waited, begunOK>>)
+         /\ Keep(<<g, word, ready, failed, nStart, nSkip, inst, shells, lastRes, gen, builtFrom, sees, signalled, rootErr, waited, begunOK, lastFin>>)
     [] e.e = "signal" ->
          /\ signalled' = TRUE
-         /\ Keep(<<g, word, ready, failed, nStart, nSkip, inst, shells, lastRes, ver, gen, builtFrom, sees, rootErr, waited, begunOK>>)
+         /\ Keep(<<g, word, ready, failed, nStart, nSkip, inst, shells, lastRes, ver, gen, builtFrom, sees, rootErr, waited, begunOK, lastFin>>)
     [] e.e = "waitsig" ->
          /\ CheckAll({"C11", "C20"}, <<"kept-alive-without-requested-service">>, \E r \in Roots : ServiceBehind(r))
          /\ Check("C04", <<"waiting-for-signal-before-everything-ran">>, CompleteOK)
          /\ waited' = TRUE
-         /\ Keep(<<g, word, ready, failed, nStart, nSkip, inst, shells, lastRes, ver, gen, builtFrom, sees, signalled, rootErr, begunOK>>)
+         /\ Keep(<<g, word, ready, failed, nStart, nSkip, inst, shells, lastRes, ver, gen, builtFrom, sees, signalled, rootErr, begunOK, lastFin>>)
+    [] e.e = "proc" ->      \* process table scan by the driver after zinoma exited
+         /\ CheckAll({"C10"} \cup (IF \E t \in Closure : g.kind[t] = "s" THEN {"C11"} ELSE {}),
+                     <<"spawned-process-survives-zinoma", e.alive>>, e.alive = 0)
+         /\ UNCHANGED mon
+    [] e.e = "latency" ->   \* milliseconds between the signal and the exit (scripts sleep 600 s)
+         /\ Check("C10", <<"exit-not-prompt-after-signal", e.ms>>, e.ms <= 5000)
+         /\ UNCHANGED mon
+    [] e.e = "names" ->
+         /\ Check("C07", <<"error-does-not-name-failing-target">>, e.ok)
+         /\ UNCHANGED mon
     [] e.e = "exit" ->
-         /\ Check("C10", <<"process-alive-at-exit">>,
+         /\ CheckAll({"C10"} \cup (IF \E t \in T : inst[t] # {} THEN {"C11"} ELSE {}), <<"process-alive-at-exit">>,
                   \A t \in T : inst[t] = {} /\ shells[t] = 0)
          /\ Check("C10", <<"actor-not-joined-at-exit">>,
                   {e.launched[i] : i \in 1..Len(e.launched)} \subseteq {e.exited[i] : i \in 1..Len(e.exited)})
